@@ -7,6 +7,7 @@ import (
 	"fmt"
 	"io"
 	"net"
+	"os"
 	"reflect"
 	"strings"
 	"time"
@@ -227,6 +228,11 @@ type c16world struct {
 	noReply   bool
 	done      bool
 	fail      string
+	// pipeline-stall: the reader of the pipeline's Consumer channel takes a future only when the environment lets it
+	stall      bool
+	wantPermit bool
+	permits    int
+	timerFired bool
 }
 
 // runC16 runs body as the client thread of a fresh two-transport world and returns the recorder.
@@ -253,9 +259,12 @@ func runC16(prefix []int, maxInFlight int, timeout time.Duration, fault *connFau
 		if !w.autoReply && !w.noReply && len(w.pending) > 0 {
 			out = append(out, vsched.EnvT{Key: fmt.Sprintf("answer request %d", len(w.received)-len(w.pending)), Do: func() { w.answerNext() }})
 		}
+		if w.stall && w.wantPermit && w.permits == 0 {
+			out = append(out, vsched.EnvT{Key: "consumer takes a future", Do: func() { w.permits++ }})
+		}
 		for _, tm := range vtime.Pending() {
 			tm := tm
-			out = append(out, vsched.EnvT{Key: fmt.Sprintf("timer +%v", tm.Deadline), Cost: 1, Do: func() { vtime.Fire(tm) }})
+			out = append(out, vsched.EnvT{Key: fmt.Sprintf("timer +%v", tm.Deadline), Cost: 1, Do: func() { w.timerFired = true; vtime.Fire(tm) }})
 			break
 		}
 		return out
@@ -473,7 +482,7 @@ func trunc(s string) string {
 // ---------------------------------------------------------------------------
 
 type c16case struct {
-	Kind     string `json:"kind"` // fidelity | cut | pipeline | timeout
+	Kind     string `json:"kind"` // fidelity | cut | pipeline | pipeline-stall | timeout
 	Call     int    `json:"call,omitempty"`
 	Request  bool   `json:"cut_request,omitempty"`
 	Offset   int    `json:"cut_offset,omitempty"`
@@ -639,6 +648,90 @@ func runC16case(c c16case) (string, *Recorder) {
 			}
 		}
 		return fail, rec
+	case "pipeline-stall":
+		// The reader of Consumer() is slow (it takes each future when the environment lets it), so the pipeline
+		// fills up; the sender goes on using the pipeline after a send that failed. Whatever fails must fail with
+		// an error; every future that completes without one carries the response to its own request.
+		var fail string
+		h := hdrs()[0]
+		respond := func(i int, cmd interface{}) (interface{}, error) {
+			a := cmd.(*raft.AppendEntriesRequest)
+			return &raft.AppendEntriesResponse{RPCHeader: h, Term: a.Term, LastLog: a.PrevLogEntry + 1000, Success: true}, nil
+		}
+		w, rec, pm := runC16(c.Prefix, c.InFlight, time.Second, nil, false, respond, func(w *c16world) {
+			w.stall = true
+			p, err := w.a.AppendEntriesPipeline("idB", "B")
+			if err != nil {
+				fail = "cannot open a pipeline: " + err.Error()
+				return
+			}
+			var futs []raft.AppendFuture
+			consumed := 0
+			sending := true
+			ch := p.Consumer()
+			vsched.GoNamed("pipe-consumer", 9, func() {
+				for {
+					w.wantPermit = true
+					vsched.WaitAlways("consumer-permit", func() bool { return w.permits > 0 || (!sending && consumed >= len(futs)) })
+					w.wantPermit = false
+					if w.permits == 0 {
+						return
+					}
+					w.permits--
+					f := vsched.Recv[raft.AppendFuture]("pipe-consume", ch)
+					i := consumed
+					consumed++
+					if fail != "" {
+						continue
+					}
+					if i >= len(futs) || f != futs[i] {
+						fail = fmt.Sprintf("pipeline delivered a future out of send order at position %d", i)
+						continue
+					}
+					if err := f.Error(); err != nil {
+						if !w.timerFired {
+							fail = fmt.Sprintf("pipeline future %d failed although no deadline passed: %v", i, err)
+						}
+						continue
+					}
+					if f.Response().LastLog != f.Request().PrevLogEntry+1000 {
+						fail = fmt.Sprintf("pipeline future for request prev=%d completed without error but carries the response produced for request prev=%d", f.Request().PrevLogEntry, f.Response().LastLog-1000)
+					}
+				}
+			})
+			for i := 0; i < c.Depth; i++ {
+				req := &raft.AppendEntriesRequest{RPCHeader: h, Term: 5, PrevLogEntry: uint64(i + 1), Entries: []*raft.Log{{Index: uint64(i + 2), Term: 5, Data: []byte{byte(i)}}}}
+				f, err := p.AppendEntries(req, new(raft.AppendEntriesResponse))
+				if err != nil {
+					if fail == "" && !w.timerFired {
+						fail = fmt.Sprintf("pipeline send %d failed although no deadline passed: %v", i, err)
+					}
+					continue
+				}
+				futs = append(futs, f)
+			}
+			sending = false
+			vsched.WaitAlways("pipe-done", func() bool { return consumed >= len(futs) })
+			p.Close()
+		})
+		if pm != "" {
+			return pm, rec
+		}
+		if !w.done && fail == "" {
+			fail = "pipeline client blocked for ever"
+		}
+		if fail == "" && w.done {
+			last := uint64(0)
+			for i, r := range w.received {
+				a, ok := r.Cmd.(*raft.AppendEntriesRequest)
+				if !ok || a.PrevLogEntry <= last {
+					fail = fmt.Sprintf("handler received pipelined request %d out of order", i)
+					break
+				}
+				last = a.PrevLogEntry
+			}
+		}
+		return fail, rec
 	}
 	return "unknown case kind", nil
 }
@@ -674,7 +767,7 @@ func enumC16(ctx *CheckCtx, shard, of int) *Stats {
 		if d != "" {
 			return report(c, d)
 		}
-		if rec == nil || c.Kind != "pipeline" {
+		if rec == nil || (c.Kind != "pipeline" && c.Kind != "pipeline-stall") {
 			return false
 		}
 		for i := len(prefix); i < len(rec.points); i++ {
@@ -748,6 +841,22 @@ func enumC16(ctx *CheckCtx, shard, of int) *Stats {
 			st.Outcomes[fmt.Sprintf("pipeline depth=%d inflight=%d", depth, inflight)]++
 		}
 	}
+	maxStall := 3
+	if ctx.Tier == "thorough" {
+		maxStall = 4
+	}
+	for _, inflight := range []int{2, 3} {
+		for depth := 2; depth <= maxStall; depth++ {
+			if !mine() {
+				continue
+			}
+			n0 := st.Execs
+			if explore(c16case{Kind: "pipeline-stall", Depth: depth, InFlight: inflight}, nil) {
+				return st
+			}
+			st.Outcomes[fmt.Sprintf("pipeline-stall depth=%d inflight=%d schedules=%d", depth, inflight, st.Execs-n0)]++
+		}
+	}
 	return st
 }
 
@@ -758,7 +867,13 @@ func replayC16(m map[string]any) (string, bool) {
 		return err.Error(), false
 	}
 	var d string
-	withSchedNone(func() { d, _ = runC16case(c) })
+	var rec *Recorder
+	withSchedNone(func() { d, rec = runC16case(c) })
+	if os.Getenv("VERIF_C16_DEBUG") != "" && rec != nil {
+		for i, p := range rec.points {
+			fmt.Printf("  point %d: %v -> %d\n", i, p.Labels, rec.choices()[i])
+		}
+	}
 	return d, d != ""
 }
 
@@ -767,7 +882,7 @@ func withSchedNone(f func()) { f() }
 func init() {
 	enumReplays["enum-nettransport"] = replayC16
 	register(&Check{Prop: "C16", Level: "model_checking",
-		Rule:        "the real NetworkTransport (two instances) runs under the cooperative scheduler over virtual connections: (1) every message variant of every RPC type (three header forms; nil / empty / non-empty / 70 kB entries of all six log types with extensions and timestamps; boundary integers; snapshot bodies of 0, 1, 4095-4097 and 300000 bytes; a handler error) is sent in a sequence of three calls that reuses the pooled connection, and what the handler receives and the caller gets back is compared field by field; (2) for an AppendEntries, a RequestVote and an InstallSnapshot the connection is cut after EVERY byte offset of the request and of the response (quick: every 7th offset for long messages), and the next call on the same transport must be served correctly; (3) a handler that never answers (deadline) followed by another call; (4) pipelines of depth 1-4 with MaxRPCsInFlight 2, 3, 10 under every interleaving of handler answers and timers; distinct = distinct (case, schedule)",
+		Rule:        "the real NetworkTransport (two instances) runs under the cooperative scheduler over virtual connections: (1) every message variant of every RPC type (three header forms; nil / empty / non-empty / 70 kB entries of all six log types with extensions and timestamps; boundary integers; snapshot bodies of 0, 1, 4095-4097 and 300000 bytes; a handler error) is sent in a sequence of three calls that reuses the pooled connection, and what the handler receives and the caller gets back is compared field by field; (2) for an AppendEntries, a RequestVote and an InstallSnapshot the connection is cut after EVERY byte offset of the request and of the response (quick: every 7th offset for long messages), and the next call on the same transport must be served correctly; (3) a handler that never answers (deadline) followed by another call; (4) pipelines of depth 1-4 with MaxRPCsInFlight 2, 3, 10 under every interleaving of handler answers and timers; (5) pipelines of depth 2-3 (thorough: 2-4) with MaxRPCsInFlight 2, 3 whose Consumer() reader is slow, under every interleaving of handler answers, reader steps and timers, the sender continuing after a failed send: every future that completes without error carries the response to its own request; distinct = distinct (case, schedule)",
 		Assumptions: []string{"virtual connections: reliable ordered byte streams, unbounded buffering, deadlines in virtual time; tcp_transport.go (real sockets) is outside the model", "nil and empty slices are identified (msgpack does not distinguish them); times compared as instants"},
 		Units: func(tier string) []Unit {
 			return []Unit{{Name: "enum-nettransport", Enum: enumC16Wrapper, NoSched: true}}
